@@ -98,7 +98,7 @@ MailParams == {"SIZE=num", "SIZE=over", "SIZE=junk", "SIZE=big", "SIZE=signed", 
                "ENVID=rawequals", "AUTH=rawequals",
                \* a raw octet that is no xchar (control character, DEL, 8-bit): xtext writes it as a hexchar
                "ENVID=rawctl", "ENVID=raw8bit"}
-RcptParams == {"NOTIFY=NEVER", "NOTIFY=SUCCESS,FAILURE", "NOTIFY=NEVER,SUCCESS", "NOTIFY=junk", "ORCPT=rfc822", "ORCPT=utf-8",
+RcptParams == {"NOTIFY=NEVER", "NOTIFY=SUCCESS,FAILURE", "NOTIFY=NEVER,SUCCESS", "NOTIFY=junk", "NOTIFY=emptyelem", "NOTIFY=trailingcomma", "ORCPT=rfc822", "ORCPT=utf-8",
                "ORCPT=badtype", "ORCPT=notype", "ORCPT=rawequals", "ORCPT=rawctl", "RRVS=time", "RRVS=junk", "UNKNOWN=1"}
 
 KeyOf(p) == CASE p \in {"SIZE=num", "SIZE=over", "SIZE=junk", "SIZE=big", "SIZE=signed"} -> "SIZE"
@@ -106,7 +106,7 @@ KeyOf(p) == CASE p \in {"SIZE=num", "SIZE=over", "SIZE=junk", "SIZE=big", "SIZE=
               [] p \in {"RET=FULL", "RET=HDRS", "RET=junk"} -> "RET"
               [] p \in {"ENVID=xtext", "ENVID=badxtext", "ENVID=empty", "ENVID=rawequals", "ENVID=rawctl", "ENVID=raw8bit"} -> "ENVID"
               [] p \in {"AUTH=mailbox", "AUTH=null", "AUTH=badxtext", "AUTH=rawequals"} -> "AUTH"
-              [] p \in {"NOTIFY=NEVER", "NOTIFY=SUCCESS,FAILURE", "NOTIFY=NEVER,SUCCESS", "NOTIFY=junk"} -> "NOTIFY"
+              [] p \in {"NOTIFY=NEVER", "NOTIFY=SUCCESS,FAILURE", "NOTIFY=NEVER,SUCCESS", "NOTIFY=junk", "NOTIFY=emptyelem", "NOTIFY=trailingcomma"} -> "NOTIFY"
               [] p \in {"ORCPT=rfc822", "ORCPT=utf-8", "ORCPT=badtype", "ORCPT=notype", "ORCPT=rawequals", "ORCPT=rawctl"} -> "ORCPT"
               [] p \in {"RRVS=time", "RRVS=junk"} -> "RRVS"
               [] p \in {"UNKNOWN=1", "UNKNOWN"} -> "UNKNOWN"
@@ -120,7 +120,7 @@ ExtOfKey(k) == CASE k \in {"RET", "ENVID", "NOTIFY", "ORCPT"} -> "DSN"
 \* ("SIZE=big": a value in the upper half of the 32-bit range, well-formed;
 \* "SIZE=signed": a sign is not part of 1*DIGIT)
 Malformed(p) == p \in {"SIZE=junk", "SIZE=signed", "BODY=junk", "RET=junk", "ENVID=badxtext", "ENVID=empty", "AUTH=badxtext",
-                       "NOTIFY=NEVER,SUCCESS", "NOTIFY=junk", "ORCPT=badtype", "ORCPT=notype", "RRVS=junk",
+                       "NOTIFY=NEVER,SUCCESS", "NOTIFY=junk", "NOTIFY=emptyelem", "NOTIFY=trailingcomma", "ORCPT=badtype", "ORCPT=notype", "RRVS=junk",
                        "ENVID=rawequals", "AUTH=rawequals", "ORCPT=rawequals", "ENVID=rawctl", "ENVID=raw8bit", "ORCPT=rawctl"}
 
 \* en: set of enabled extensions; sizeLimit: a size limit is configured
